@@ -126,6 +126,8 @@ class XmlModifier(ModelBase):
 
         child_v = cls.type
         child_v.__type_name__ = tn
+        # the anonymous type is named after its parent, so that's where it lives
+        child_v.__namespace__ = parent_ns
 
         cls._type_info = TypeInfo({tn: child_v})
         cls.__type_name__ = '%s%s%s' % (const.ARRAY_PREFIX, tn,
